@@ -10,12 +10,12 @@ Three layers, all against the REAL pygls of $VERIF_REPO:
     endpoint too, and after every event the two real runs must agree on everything that does not
     belong to the marked messages (clause ii: core_of B (with) = obs (without)); the loop must be
     alive in both.  The `error_handler` handed to `run_async` is NOT chosen by the harness: it is
-    captured from the real call site (`JsonRPCServer._start_io_async` run against in-memory streams with
+    captured from the real call site (the async entry point of `JsonRPCServer.start_io` run against in-memory streams with
     `pygls.server.run_async` replaced by a recorder), so a call site that passes the bare
     `report_server_error` shows up as a dead loop under a raising hook.
  2. whole-stream cases: the same vocabulary restricted to synchronous handlers, as ONE byte stream
     through `io_.run` (BytesIO / pipe) and through `run_async` + `StdinAsyncReader` over a pipe, with
-    the handler captured from `_start_io_sync` / `_start_io_async`.
+    the handler captured from the two private entry points of start_io (located by harness/priv.py).
  3. extra_checks: the seven call sites (captured handler called with a raising hook), and end-to-end
     runs - real `start_tcp`, real `start_io` over pipes, real `JsonRPCClient.start_io` against a scripted
     subprocess - with a raising hook, judged directly: every neighbour answered, loop ends normally.
@@ -34,6 +34,7 @@ import time
 import types
 
 import core
+import priv
 import sched
 
 logging.disable(logging.CRITICAL)
@@ -151,14 +152,16 @@ class _Captured(Exception):
     pass
 
 
-def capture_server_handler(server, site="io_async"):
+def capture_server_handler(server, site="io_async", include_headers=True):
     """Run the real call site with the read loop replaced by a recorder; returns the object the
-    call site passes as `error_handler`."""
+    call site passes as `error_handler`.  The call site replaces the writer, the stop event and (start_io)
+    creates and closes a pool: writer (with `include_headers` as the caller had set it - the flag itself
+    cannot be read back through the public API), stop event and an absent pool are put back."""
     import pygls.server as ps
     box = {}
     proto = server.protocol
-    saved = (proto.writer, proto._include_headers, server._stop_event, getattr(server, "_server", None))
-    saved_pool = server._thread_pool
+    saved_writer, saved_stop, saved_pool = proto.writer, priv.stop_event(server), priv.thread_pool_slot(server)
+    start_async, start_sync = priv.start_io_async(server), priv.start_io_sync(server)
 
     async def rec_async(*a, **kw):
         box["h"] = kw.get("error_handler", a[4] if len(a) > 4 else None)
@@ -171,11 +174,11 @@ def capture_server_handler(server, site="io_async"):
         asyncio.get_event_loop_policy()
         if site == "io_async":
             ps.run_async = rec_async
-            server._start_io_async(io.BytesIO(b""), io.BytesIO())
+            start_async(io.BytesIO(b""), io.BytesIO())
         elif site == "io_sync":
             ps.run = rec_sync
             try:
-                server._start_io_sync(io.BytesIO(b""), io.BytesIO())
+                start_sync(io.BytesIO(b""), io.BytesIO())
             except ValueError:
                 pass                      # asyncio.run(None): the sync loop has already returned
         elif site == "tcp":
@@ -206,11 +209,10 @@ def capture_server_handler(server, site="io_async"):
             raise ValueError(site)
     finally:
         ps.run_async, ps.run, ps.run_websocket = orig
-        proto.writer, proto._include_headers = saved[0], saved[1]
-        server._stop_event = saved[2]
-        server._server = saved[3]
+        proto.set_writer(saved_writer, include_headers=include_headers)
+        priv.set_stop_event(server, saved_stop)
         if saved_pool is None:
-            server._thread_pool = None      # the call site's shutdown() closed the pool it had created: start afresh
+            priv.set_thread_pool(server, None)   # the call site's shutdown() closed the pool it had created: start afresh
         try:
             asyncio.set_event_loop(None)
         except Exception:
@@ -284,7 +286,7 @@ def capture_client_handler(client, site="io"):
                         return object()
                     fw.client.connect = connect
                     await client.start_ws("h", 1)
-            await asyncio.gather(*client._async_tasks)
+            await asyncio.gather(*priv.async_tasks(client))
         loop.run_until_complete(go())
     finally:
         pc.run_async, pc.run_websocket = orig
@@ -302,8 +304,8 @@ class Sched6(sched.Sched):
         real = pio.run_async
 
         def with_site_handler(stop_event, reader, protocol, logger=None, error_handler=None):
-            h = capture_server_handler(protocol._server, "io_async")
-            protocol._server._stop_event = stop_event     # as in start_io: the loop runs on the server's stop event
+            h = capture_server_handler(self.server, "io_async")
+            priv.set_stop_event(self.server, stop_event)  # as in start_io: the loop runs on the server's stop event
             return real(stop_event, reader, protocol, logger, h)
         pio.run_async = with_site_handler
         try:
@@ -346,8 +348,8 @@ def stream_wire(f, idx):
 
 def run_stream(case):
     """All events are arrivals of frames with synchronous handlers: one byte stream through a real loop.
-    loop = sync   : io_.run, handler of JsonRPCServer._start_io_sync
-           pool   : io_.run_async + StdinAsyncReader over a pipe, handler of _start_io_async
+    loop = sync   : io_.run, handler of the sync entry point of JsonRPCServer.start_io
+           pool   : io_.run_async + StdinAsyncReader over a pipe, handler of the async entry point
            client : io_.run_async + StreamReader on a JsonRPCClient, handler of JsonRPCClient.start_io"""
     from pygls.lsp.server import LanguageServer
     from pygls.client import JsonRPCClient
@@ -401,12 +403,12 @@ def run_stream(case):
     data = b"".join(b"Content-Length: %d\r\n\r\n" % len(b) + b
                     for b in (stream_wire(f, i) for i, f in enumerate(frames)))
     stop = threading.Event()
-    srv._stop_event = stop              # as in start_io: the loop runs on the endpoint's own stop event
+    priv.set_stop_event(srv, stop)      # as in start_io: the loop runs on the endpoint's own stop event
     term = "normal"
     if loopkind == "sync":
         handler = capture_server_handler(srv, "io_sync")
         srv.protocol.set_writer(W())
-        srv._stop_event = stop
+        priv.set_stop_event(srv, stop)
         try:
             if case.get("rd") == "pipe":
                 r, w = os.pipe()
@@ -426,7 +428,7 @@ def run_stream(case):
         handler = capture_client_handler(srv, "io")      # (the stand-in server process "exits": the client sets its stop event)
         srv.protocol.set_writer(W())
         stop = threading.Event()
-        srv._stop_event = stop
+        priv.set_stop_event(srv, stop)
         loop = asyncio.new_event_loop()
         try:
             reader = asyncio.StreamReader(loop=loop)
@@ -442,7 +444,7 @@ def run_stream(case):
     else:
         handler = capture_server_handler(srv, "io_async")
         srv.protocol.set_writer(W())
-        srv._stop_event = stop
+        priv.set_stop_event(srv, stop)
         from concurrent.futures import ThreadPoolExecutor
         pool = ThreadPoolExecutor(max_workers=1)
         r, w = os.pipe()
@@ -463,8 +465,9 @@ def run_stream(case):
             t.join(10)
             pool.shutdown(wait=False)
     return {"out": [sched.decode_frame(d) for d in writes], "hlog": hlog, "errs": errs,
-            "futs": list(srv.protocol._request_futures.keys()), "rtypes": list(srv.protocol._result_types.keys()),
-            "shutdown": bool(srv.protocol._shutdown), "term": term}
+            "futs": list(priv.request_futures(srv.protocol).keys()),
+            "rtypes": list(priv.result_types(srv.protocol).keys()),
+            "shutdown": priv.shutdown_flag(srv.protocol), "term": term}
 
 
 def _pipe_write(w, data):
@@ -482,6 +485,7 @@ def _pipe_write(w, data):
             pass
 
 
+@priv.in_worker
 def _run_one(case):
     try:
         raises = case["cfg"]["hook"] == "raises"
@@ -499,6 +503,8 @@ def _run_one(case):
         if raises:
             r["quiet"] = run_stream(dict(case, cfg=quiet))
         return r
+    except priv.Unresolvable:       # a failure of the harness, not an observation of pygls
+        raise
     except BaseException as ex:     # noqa
         return ["raise", type(ex).__name__, str(ex)[:300]]
 
@@ -861,12 +867,13 @@ def e2e_client(hook):
     async def go():
         await client.start_io(core.PY, peer, data.hex())
         for _ in range(200):
-            if len(notes) >= len(bad) or any(t.done() for t in client._async_tasks[:1]):
+            if len(notes) >= len(bad) or any(t.done() for t in priv.async_tasks(client)[:1]):
                 break
             await asyncio.sleep(0.02)
-        res["reader_alive"] = not client._async_tasks[0].done()
+        res["reader_alive"] = not priv.async_tasks(client)[0].done()
+        proc = priv.process(client)
         try:
-            client._server.stdin.close()
+            proc.stdin.close()
         except Exception:       # noqa
             pass
         try:
@@ -878,8 +885,9 @@ def e2e_client(hook):
         loop.run_until_complete(go())
     finally:
         try:
-            if client._server is not None and client._server.returncode is None:
-                client._server.kill()
+            proc = priv.process(client)
+            if proc is not None and proc.returncode is None:
+                proc.kill()
         except Exception:       # noqa
             pass
         loop.close()
@@ -951,7 +959,7 @@ def lsp_session(kind, hook):
     handler = capture_server_handler(srv, "io_async")
     srv.protocol.set_writer(W())
     stop = threading.Event()
-    srv._stop_event = stop
+    priv.set_stop_event(srv, stop)
     loop = asyncio.new_event_loop()
     term = "normal"
     try:
@@ -971,21 +979,24 @@ def lsp_session(kind, hook):
             term = "raise:" + type(e).__name__
     finally:
         try:
-            if srv._thread_pool:
-                srv._thread_pool.shutdown(wait=True)
+            if priv.thread_pool_slot(srv):
+                priv.thread_pool_slot(srv).shutdown(wait=True)
         except Exception:           # noqa
             pass
         loop.close()
     doc = srv.workspace.text_documents.get(uri)
     replies = sorted((core.canon(f) for f in (sched.decode_frame(d) for d in writes) if f[0] == "resp"))
     return {"term": term, "replies": replies, "text": None if doc is None else doc.source,
-            "version": None if doc is None else doc.version, "shutdown": bool(srv.protocol._shutdown),
+            "version": None if doc is None else doc.version, "shutdown": priv.shutdown_flag(srv.protocol),
             "user_handlers_run": sorted(ran), "hook_calls": sorted(calls)}
 
 
 def hook_call_sites():
-    """Static sweep of the pygls tree: every textual use of report_server_error, classified."""
+    """Static sweep of the pygls tree: every textual use of report_server_error, classified (evidence only,
+    not judged; the name of the protecting wrapper is the one harness/priv.py resolved)."""
     import re
+    wrapper = priv.name_of("server.error_handler")      # `_report_server_error` at the pinned commit
+    w = re.escape(wrapper)
     root = os.path.join(core.REPO, "pygls")
     res = {"protected_calls": [], "handler_arguments": [], "definitions": [], "inside_protecting_wrapper": [], "UNPROTECTED_calls": []}
     for d, _, fs in os.walk(root):
@@ -999,16 +1010,16 @@ def hook_call_sites():
                 m = re.match(r"\s*(?:async\s+)?def\s+(\w+)", line)
                 if m:
                     cur = m.group(1)
-                if "report_server_error" not in line or line.strip().startswith("#"):
+                if ("report_server_error" not in line and wrapper not in line) or line.strip().startswith("#"):
                     continue
                 where = "%s:%d" % (os.path.relpath(p, core.REPO), n)
-                if re.search(r"def\s+_?report_server_error", line):
+                if re.search(r"def\s+(?:%s|report_server_error)\b" % w, line):
                     res["definitions"].append(where)
-                elif "._report_server_error(" in line or re.search(r"\b_report_server_error\(", line):
+                elif re.search(r"(?:\.|\b)%s\(" % w, line):
                     res["protected_calls"].append(where)
-                elif re.search(r"error_handler\s*=\s*self\._report_server_error", line):
+                elif re.search(r"error_handler\s*=\s*self\.%s\b" % w, line):
                     res["handler_arguments"].append(where)
-                elif cur == "_report_server_error":
+                elif cur == wrapper:
                     res["inside_protecting_wrapper"].append(where)
                 elif re.search(r"report_server_error\(", line) or re.search(r"=\s*\S*report_server_error\b", line):
                     res["UNPROTECTED_calls"].append(where)
@@ -1069,6 +1080,8 @@ def site_table():
     for kind, site in (("s", "io_async"), ("s", "io_sync"), ("s", "tcp"), ("s", "ws"), ("c", "io"), ("c", "tcp"), ("c", "ws")):
         try:
             h = capture_server_handler(S("x", "1"), site) if kind == "s" else capture_client_handler(C(), site)
+        except priv.Unresolvable:       # a failure of the harness, not a property of the call site
+            raise
         except BaseException as e:      # noqa
             res.append("capture-failed:" + type(e).__name__)
             continue
@@ -1111,7 +1124,9 @@ class C06(core.Property):
                     "extraction with ExtrOcamlBasic only + ocaml/c06_driver.ml + conv_io/n/z/nat",
                     "harness/sched.py (scheduler) and harness/c06.py (generators, call-site capture, observation algebra)",
                     "modelled not verified: asyncio task semantics, concurrent.futures.Future, json / cattrs as the "
-                    "oracle POk/PBad/PFail, which bytes make a body garbage"]
+                    "oracle POk/PBad/PFail, which bytes make a body garbage",
+                    priv.trusted(sched.PRIVATE + ["server.stop_event", "server.start_io_sync", "server.start_io_async", "client.stop_event", "client.async_tasks", "client.process", "client.error_handler"])]
+    private = sched.PRIVATE + ["server.stop_event", "server.start_io_sync", "server.start_io_async", "client.stop_event", "client.async_tasks", "client.process", "client.error_handler"]
     assumptions = ["ids of marked requests are not used by outgoing requests or unmarked frames (wf)",
                    "a working transport (c_wfail = None) and not (awaitable writer with the default hook) for clause (ii)",
                    "header lines within the reader's limit and Content-Length within int()'s digit limit (C02_outside_limit)"]
@@ -1410,10 +1425,10 @@ class C06(core.Property):
     # ---------------------------------------------------------------- implementation
     def run_impl(self, chk, cases):
         if len(cases) < 40:
-            return [_run_one(c) for c in cases]
+            return priv.collect(_run_one(c) for c in cases)
         import multiprocessing as mp
         with mp.get_context("fork").Pool(4) as pool:
-            return pool.map(_run_one, cases, chunksize=8)
+            return priv.collect(pool.map(_run_one, cases, chunksize=8))
 
     # ---------------------------------------------------------------- model
     def model_input(self, case):
@@ -1530,7 +1545,7 @@ class C06(core.Property):
         toks = core.run_driver("C06", ["sites"])[0]
         model_sites = [int(x) for x in toks[:7]]
         impl_sites = site_table()
-        cov["call_sites"] = dict(zip(["server._start_io_async", "server._start_io_sync", "server.start_tcp",
+        cov["call_sites"] = dict(zip(["server.start_io (async entry)", "server.start_io (sync entry)", "server.start_tcp",
                                       "server.start_ws", "client.start_io", "client.start_tcp", "client.start_ws"], impl_sites))
         if impl_sites != model_sites:
             viol.append({"case": {"k": "call-sites"}, "impl": impl_sites, "S": model_sites, "verdict": "violation"})
